@@ -138,7 +138,8 @@ def judged(binary, case, out, judge_fn):
     err = judge_fn(out["journal"], v, st)
     if v and timed_out(out["journal"]):
         out2 = rerun_scaled(binary, case)
-        if out2 and out2.get("stalled", -1) < 0:
+        if out2:
+            # (a replay that fails in the same way although every timeout was ten times longer is not an effect of machine load: it is judged as it is)
             v2, st2 = [], collections.Counter()
             err2 = judge_fn(out2["journal"], v2, st2)
             st2["rejudged_with_generous_timeouts"] += 1
